@@ -15,9 +15,9 @@ CHECKS = {
     "C01": ("other", "contract-based deductive verification of the real functions (VCs by symbolic execution of the code objects, z3/cvc5) + bounded list-of-rows stand-in",
             "Proved for every row-length vector: the prefix-sum geometry built by RaggedShape.__init__, size, ravel/unravel_multi_index, index_array (four inductions), the constructor's size check, len/shape/lengths/size/ravel/astype, to_numpy_array, from_tuple_shape. Bounded (exhaustive inside stated bounds, never counted as proved): iteration/tolist, dtype matrix, save/load round trip (np.savez/np.load assumed).", "0, 11/C01"),
     "C02": ("other", "contract-based deductive verification (incl. an inductive scan invariant for build_indices) + bounded Python-list-indexing stand-in",
-            "Proved for all inputs: column-slice arithmetic for all 8 None/int kinds with symbolic bounds, steps and column step; integer column / element refusal; row selection on codes for int / slice / index array / mask; build_indices (scatter-then-scan, unbounded rows); get_shape / get_flat_indices preconditions; __getitem__ and _get_row_subset dispatch; and the composition mechanised for ra[rowslice, colslice]: the real chain __getitem__ -> view_rows -> col_slice -> ravel -> gather executed on a symbolic array (only get_flat_indices replaced by its proved contract) gives, cell by cell, Python list indexing (row bounds / steps and column bounds symbolic, column step in {1,2,-1,-2,-3}). Other selector combinations end to end are bounded.", "0, 11/C02"),
+            "Proved for all inputs: column-slice arithmetic for all 8 None/int kinds with symbolic bounds, steps and column step; integer column / element refusal; row selection on codes for int / slice / index array / mask; build_indices (scatter-then-scan, unbounded rows); get_shape / get_flat_indices preconditions; __getitem__ and _get_row_subset dispatch; and the composition mechanised for ra[rowslice, colslice]: the real chain __getitem__ -> view_rows -> col_slice -> ravel -> gather executed on a symbolic array (only get_flat_indices replaced by its proved contract) gives, cell by cell, Python list indexing - for rows selected by a slice (bounds / steps symbolic), an integer index array or a boolean mask, columns by a slice (bounds symbolic, step in {1,2,-1,-2,-3}) or none, and for the integer forms ra[i, j], ra[i], ra[i, a:b:s], ra[rows, j]. Combinations outside these are bounded.", "0, 11/C02"),
     "C03": ("other", "contract-based deductive verification (address arithmetic shared with reads, scatter frame, XOR-scan broadcast) + bounded list-assignment stand-in",
-            "Proved: everything of C02's address computation, _set_data_range (addressed cells get their values, every other cell unchanged, no other buffer written; index array / mask / slice), __setitem__ dispatch per value kind incl. refusal of mismatching ragged values, _raw_broadcast (column-vector values) with its wrappers; and the composition mechanised for ra[rowslice, colslice] = scalar: exactly the cells list indexing selects get the value, every other cell keeps its value (frame), with only get_flat_indices replaced by its proved contract (column step in {1,2,-1,-2,-3}). Other selector / value combinations end to end are bounded.", "0, 11/C03"),
+            "Proved: everything of C02's address computation, _set_data_range (addressed cells get their values, every other cell unchanged, no other buffer written; index array / mask / slice), __setitem__ dispatch per value kind incl. refusal of mismatching ragged values, _raw_broadcast (column-vector values) with its wrappers; and the composition mechanised for ra[rowslice, colslice] = scalar: exactly the cells list indexing selects get the value, every other cell keeps its value (frame), with only get_flat_indices replaced by its proved contract (same selector kinds as for reads, incl. ra[i, j] = v, ra[i] = v, ra[rows, j] = v). Non-scalar values end to end are bounded (their broadcasting is proved in __setitem__ / _raw_broadcast).", "0, 11/C03"),
     "C04": ("other", "contract-based deductive verification with the ufunc as an uninterpreted function + bounded numpy-per-row stand-in",
             "Proved for every ufunc at once: operand classification, operand order, shape guard (refusal iff row lengths differ), result assembly, dtype handed to the column broadcast, operands not written; _raw_broadcast proved. numpy's result dtype table and the dtype matrix are bounded.", "0, 11/C04"),
     "C05": ("other", "contract of _reduce against the assumed reduceat contract + wrapper dispatch + bounded numpy-per-row stand-in",
